@@ -193,7 +193,7 @@ Theorem step_meets_spec :
     (forall p, In p (keys (latest st)) -> In p own) ->
     let o := obs_of opt st st' oc r own in
     spec_only_reported o /\ spec_all_reported_written o /\ spec_deletes_own o /\
-    spec_failed_no_write o /\ spec_single_valued o.
+    spec_failed_no_write o /\ spec_single_valued o /\ spec_inputs_not_overwritten o.
 Proof. exact step_meets_spec_all. Qed.
 Print Assumptions step_meets_spec.
 
